@@ -32,10 +32,11 @@ Record kinv (st : hskip) (e : env) : Prop := mkkinv {
            end
 }.
 
-Lemma kinv_frame st e e' :
-  kinv st e -> einv X (kowned st) [] [] e' -> frame (kowned st ++ [] ++ []) e e' -> kinv st e'.
+Lemma kinv_frame' st e e' :
+  kinv st e -> einv X (kowned st) [] [] e' -> same_on (kowned st) (wh (ew e)) (wh (ew e')) -> kinv st e'.
 Proof.
-  intros [Ie Is Ib Ic Ir] He [Hs [_ Hl]].
+  intros [Ie Is Ib Ic Ir] He Hs0.
+  assert (Hs : same_on (kowned st ++ [] ++ []) (wh (ew e)) (wh (ew e'))) by (now rewrite !app_nil_r).
   assert (Hblk : forall b, In b (kowned st) -> block (wh (ew e')) b = block (wh (ew e)) b).
   { intros b Hb. apply Hs. rewrite !app_nil_r. exact Hb. }
   split; try assumption.
@@ -45,6 +46,12 @@ Proof.
     rewrite <- Ic. apply rd_same. apply Hblk. unfold kowned. rewrite Hb. now left.
   - destruct (kres st) as [l|]; [|exact I]. destruct Ir as [A B]. split; [assumption|].
     rewrite <- B. apply rd_same. now apply Hblk.
+Qed.
+
+Lemma kinv_frame st e e' :
+  kinv st e -> einv X (kowned st) [] [] e' -> frame (kowned st ++ [] ++ []) e e' -> kinv st e'.
+Proof.
+  intros Hi He [Hs _]. eapply kinv_frame'; try eassumption. now rewrite !app_nil_r in Hs.
 Qed.
 
 Lemma kinv_callback st e : kinv st e -> kinv st (e_callback e).
